@@ -337,3 +337,114 @@ Proof.
     apply (elems_wf (VMapping m ks vs)); auto.
     apply (pair_in_elems _ _ q (V ks vs)); auto.
 Qed.
+
+(* ---------- boundaries of the universe, documented by refutations in the model ---------- *)
+(* without pairwise rank-different keys the insertion order of a Go map matters:
+   int8(1) and int64(1) are different Go keys that rank Equal *)
+Theorem rank_map_order_free_needs_distinct_keys_refuted :
+  exists M m ks vs ks' vs',
+    is_map_kind m = true /\ Permutation (zipkv ks vs) (zipkv ks' vs') /\
+    inU M (VMapping m ks vs) = true /\ inU M (VMapping m ks' vs') = true /\
+    rank0 M (VMapping m ks vs) (VMapping m ks' vs') <> R Eq /\
+    compare0 M (VMapping m ks vs) (VMapping m ks' vs') = R true.
+Proof.
+  exists 16, MGoMap, [VInt 8 1%Z; VInt 64 1%Z], [VStr [97%Z]; VStr [98%Z]],
+         [VInt 64 1%Z; VInt 8 1%Z], [VStr [98%Z]; VStr [97%Z]].
+  split; [reflexivity|]. split; [apply perm_swap|].
+  split; [vm_compute; reflexivity|]. split; [vm_compute; reflexivity|].
+  split; [vm_compute; discriminate|vm_compute; reflexivity].
+Qed.
+
+(* NaN keys: a Go map is never equal to itself under compareValues, although it ranks Equal *)
+Theorem compare_refl_needs_no_nan_keys_refuted :
+  exists M a, inU M a = true /\ rank0 M a a = R Eq /\ compare0 M a a = R false.
+Proof.
+  exists 16, (VMapping MGoMap [VFloat 64 9221120237041090560%Z] [VInt 0 1%Z]).
+  repeat split; vm_compute; reflexivity.
+Qed.
+
+(* ---------- single-point changes of maps ---------- *)
+Theorem compare_map_length : forall M m ks vs ks' vs', is_map_kind m = true ->
+  length (zipkv ks vs) <> length (zipkv ks' vs') ->
+  nest (VMapping m ks vs) <= M -> nest (VMapping m ks' vs') <= M ->
+  compare0 M (VMapping m ks vs) (VMapping m ks' vs') = R false.
+Proof.
+  intros M m ks vs ks' vs' Hm HL N1 N2. rewrite compare0_pure by auto. f_equal.
+  rewrite pcomp_eq. unfold pcspec.
+  replace (tyrank (VMapping m ks vs) =? tyrank (VMapping m ks' vs'))%Z with true
+    by (symmetry; apply Z.eqb_eq; destruct m; reflexivity).
+  assert (V : forall k v, view_of (VMapping m k v) = WMap (zipkv k v))
+    by (intros; destruct m; try discriminate; reflexivity).
+  simpl negb. cbv iota. rewrite !V.
+  apply Nat.eqb_neq in HL. rewrite HL. reflexivity.
+Qed.
+
+Lemma map_tail_lookups : forall a k v z, wf a = true -> view_of a = WMap ((k, v) :: z) ->
+  forall w p, In p z -> lookup_kv (fst p) ((k, w) :: z) = Some (snd p).
+Proof.
+  intros a k v z Wa Va w p Hp.
+  destruct (wf_map a _ Wa Va) as [K [ND D]].
+  simpl. destruct (keq (fst p) k) eqn:E.
+  - exfalso. inversion ND as [|? ? NI _]; subst. apply NI.
+    assert (p = (k, v)) as <-; auto.
+    apply D; simpl; auto. unfold keyr. simpl.
+    apply keq_lrank_fwd; auto; [apply (K p)|apply (K (k, v))]; simpl; auto.
+  - apply lookup_self; auto.
+    + split; [inversion ND; auto|]. intros; apply D; simpl; auto.
+    + intros q Hq. apply K. simpl. auto.
+Qed.
+
+Theorem compare_map_one_value_changed : forall M m k ks v v' vs, is_map_kind m = true ->
+  inW M (VMapping m (k :: ks) (v :: vs)) = true -> inW M (VMapping m (k :: ks) (v' :: vs)) = true ->
+  compare0 M (VMapping m (k :: ks) (v :: vs)) (VMapping m (k :: ks) (v' :: vs)) = compare0 M v v'.
+Proof.
+  intros M m k ks v v' vs Hm H1 H2.
+  assert (V : forall k v, view_of (VMapping m k v) = WMap (zipkv k v))
+    by (intros; destruct m; try discriminate; reflexivity).
+  pose proof (inW_spec _ _ H1) as [W1 N1]. pose proof (inW_spec _ _ H2) as [W2 N2].
+  pose proof (V (k :: ks) (v :: vs)) as V1. pose proof (V (k :: ks) (v' :: vs)) as V2. simpl zipkv in V1, V2.
+  destruct (wf_map _ _ W1 V1) as [K1 _].
+  assert (Nv : nest v <= M /\ nest v' <= M).
+  { pose proof (elems_nest (VMapping m (k :: ks) (v :: vs)) v) as E1.
+    pose proof (elems_nest (VMapping m (k :: ks) (v' :: vs)) v') as E2.
+    unfold elems in E1, E2. rewrite V1 in E1. rewrite V2 in E2.
+    simpl velems in E1, E2. simpl vstep in E1, E2.
+    specialize (E1 ltac:(right; apply in_or_app; right; left; reflexivity)).
+    specialize (E2 ltac:(right; apply in_or_app; right; left; reflexivity)). lia. }
+  rewrite !compare0_pure by tauto. f_equal.
+  rewrite pcomp_eq. unfold pcspec.
+  replace (tyrank (VMapping m (k :: ks) (v :: vs)) =? tyrank (VMapping m (k :: ks) (v' :: vs)))%Z with true
+    by (symmetry; apply Z.eqb_eq; destruct m; reflexivity).
+  simpl negb. cbv iota. rewrite V1, V2. simpl length. rewrite Nat.eqb_refl. simpl andb.
+  unfold mapall. simpl forallb. rewrite (keq_refl_ckey k (K1 (k, v) (or_introl eq_refl))).
+  match goal with |- _ && ?X = _ => assert (X = true) as ->; [|apply andb_true_r] end.
+  apply forallb_forall. intros p Hp.
+  pose proof (map_tail_lookups _ k v (zipkv ks vs) W1 V1 v' p Hp) as L. simpl in L. rewrite L.
+  apply pcomp_refl. apply (elems_wf (VMapping m (k :: ks) (v :: vs))); auto.
+  apply (pair_in_elems _ _ p V1). simpl. auto.
+Qed.
+
+Theorem compare_map_key_renamed : forall M m k k' ks v vs, is_map_kind m = true ->
+  inW M (VMapping m (k :: ks) (v :: vs)) = true -> inW M (VMapping m (k' :: ks) (v :: vs)) = true ->
+  keq k k' = false ->
+  compare0 M (VMapping m (k :: ks) (v :: vs)) (VMapping m (k' :: ks) (v :: vs)) = R false.
+Proof.
+  intros M m k k' ks v vs Hm H1 H2 E.
+  assert (V : forall k v, view_of (VMapping m k v) = WMap (zipkv k v))
+    by (intros; destruct m; try discriminate; reflexivity).
+  pose proof (inW_spec _ _ H1) as [W1 N1]. pose proof (inW_spec _ _ H2) as [W2 N2].
+  pose proof (V (k :: ks) (v :: vs)) as V1. simpl zipkv in V1.
+  destruct (wf_map _ _ W1 V1) as [K1 [ND D]].
+  rewrite compare0_pure by auto. f_equal.
+  rewrite pcomp_eq. unfold pcspec.
+  replace (tyrank (VMapping m (k :: ks) (v :: vs)) =? tyrank (VMapping m (k' :: ks) (v :: vs)))%Z with true
+    by (symmetry; apply Z.eqb_eq; destruct m; reflexivity).
+  simpl negb. cbv iota. rewrite !V. simpl zipkv. simpl length. rewrite Nat.eqb_refl. simpl andb.
+  unfold mapall. simpl forallb. rewrite E.
+  destruct (lookup_kv k (zipkv ks vs)) as [v2|] eqn:L; [|reflexivity].
+  exfalso. destruct (lookup_in _ _ _ L) as [k2 [I2 E2]].
+  inversion ND as [|? ? NI _]; subst. apply NI.
+  assert ((k2, v2) = (k, v)) as <-; auto.
+  apply D; simpl; auto. unfold keyr. simpl. apply lrank_eq_sym.
+  apply keq_lrank_fwd; auto; [apply (K1 (k, v))|apply (K1 (k2, v2))]; simpl; auto.
+Qed.
